@@ -468,6 +468,10 @@ def scenarios_c14(tier):
                     continue
                 out.append({"name": f"C14:{cls}:{r}|{w}:two-objects", "cls": cls, "buffered": buffered,
                             "threads": [thread_spec("R", r, "o1", read=True), thread_spec("W", w, "o2")]})
+    # a reader between two writes of another object (the reader's object is registered last in the buffer)
+    for cls, buffered in (("BufferedJSONDict", True), ("JSONDict", False), ("MemoryBufferedJSONDict", True)):
+        out.append({"name": f"C14:{cls}:r_get_d|set_x,set_y:two-objects", "cls": cls, "buffered": buffered, "limit": 400,
+                    "threads": [thread_spec("R", "r_get_d", "o1", read=True), thread_spec("W1", "set_x", "o2"), thread_spec("W2", "set_y", "o2")]})
     for r in (["r_call_l", "r_get_l", "r_len_l"] if tier != "quick" else ["r_call_l"]):
         for w in (["append", "lpop", "reverse", "clear_l"] if tier != "quick" else ["append", "lpop"]):
             out.append({"name": f"C14:JSONList:{r}|{w}:two-objects", "cls": "JSONList",
@@ -489,8 +493,8 @@ def run_scenarios(specs, tier, seed, jobs=14, gran=None):
 
     def one(spec):
         spec = dict(spec)
-        spec.setdefault("gran", gran or ("call" if tier == "quick" else "line"))
-        spec.setdefault("limit", 260 if tier == "quick" else 3000)
+        spec.setdefault("gran", gran or "call")
+        spec.setdefault("limit", 260 if tier == "quick" else 900)
         spec.setdefault("seed", seed)
         p = subprocess.run([sys.executable, os.path.abspath(__file__), "child", json.dumps(spec)], capture_output=True, text=True,
                            env=dict(os.environ, PYTHONHASHSEED="0", VERIF_REPO=REPO), timeout=3600)
@@ -500,6 +504,17 @@ def run_scenarios(specs, tier, seed, jobs=14, gran=None):
         r = json.loads(m.group(1))
         r["spec"] = spec
         return r
+    specs = list(specs)
+    if tier != "quick" and gran is None:
+        # line granularity (every preemption point between two executed lines of library code) on a subset
+        names = set()
+        for sp in specs:
+            key = sp["name"].split(":")[0] + sp["cls"] + str(sp.get("cap")) + str(len(names) % 7)
+            if len(names) < 40 and key not in names:
+                names.add(key)
+                sp2 = dict(sp)
+                sp2.update(name=sp["name"] + " [line granularity]", gran="line", limit=500)
+                specs.append(sp2)
     with cf.ThreadPoolExecutor(max_workers=jobs) as ex:
         for r in ex.map(one, specs):
             results.append(r)
